@@ -120,6 +120,8 @@ EvalP(e, row) ==
               ELSE IF n = "true" THEN B(TRUE) ELSE IF n = "false" THEN B(FALSE) ELSE IF n = "null" THEN Null
               ELSE ColV(row.cols, n)
          ELSE IF Len(e.parts) = 1 THEN ColV(row.cols, e.parts[1].name)
+         ELSE IF Len(e.parts) = 2 /\ (e.parts[1].name \o "." \o e.parts[2].name) \in DOMAIN row.cols
+              THEN row.cols[e.parts[1].name \o "." \o e.parts[2].name]        \* alias-qualified column of a join row
          ELSE Opq("qcol", [i \in DOMAIN e.parts |-> S(<<e.parts[i].name>>)])
     [] e.k = "Lit" -> IF e.kind = "Number" THEN NumV(e.value) ELSE StrV(e.value)
     [] e.k = "Paren" -> EvalP(e.x, row)
@@ -162,6 +164,8 @@ LowerName(f) == CASE f \in {"LOWER", "lower"} -> "lower" [] f \in {"UPPER", "upp
 \* placeholders: values of the verbatim parameter snippets
 EvalS(s, row) ==
   CASE s.k = "Col" -> IF Len(s.parts) = 1 THEN ColV(row.cols, s.parts[1])
+                      ELSE IF Len(s.parts) = 2 /\ (s.parts[1] \o "." \o s.parts[2]) \in DOMAIN row.cols
+                           THEN row.cols[s.parts[1] \o "." \o s.parts[2]]
                       ELSE Opq("qcol", [i \in DOMAIN s.parts |-> S(<<s.parts[i]>>)])
     [] s.k = "Num" -> NumV(s.v)
     [] s.k = "Str" -> StrV(s.v)
